@@ -76,8 +76,9 @@ fn common_assumptions(report: &mut Report) {
     ]);
 }
 
-/// Thorough tier: the build without debug assertions explores the largest profiles one level
-/// shallower (the two builds together must fit the time a thorough check may take).
+/// The build without debug assertions explores the largest profiles one level shallower (the two
+/// builds together must fit the time a check may take): most of the thorough tier, and the
+/// `wide-try` profile of C01's quick tier.
 fn dd(d: usize) -> usize {
     if cfg!(debug_assertions) { d } else { d - 1 }
 }
@@ -165,7 +166,7 @@ pub fn run_property(prop: &str, tier: &str, threads: usize, budget: &Budget, fin
     match prop {
         "C01" => {
             report.rule = "every operation history over the profile's alphabet up to the stated depth, executed on the real crate next to a String model; a state is the exact canonical pool (raw inline bytes, whole heap buffers incl. stale tails, capacities, reference counts, sharing graph); distinct = distinct canonical state".into();
-            let (dw, dt, ds, di, dsh, dst, dinl) = if quick { (4, 4, 3, 3, 4, 4, 5) } else { (dd(6), dd(5), dd(4), 3, 5, dd(6), 7) };
+            let (dw, dt, ds, di, dsh, dst, dinl) = if quick { (4, dd(4), 3, 3, 4, 4, 5) } else { (dd(6), dd(5), dd(4), 3, 5, dd(6), 7) };
             if !quick {
                 determinism_selfcheck(&env, report, &wide, 4);
             }
